@@ -22,14 +22,35 @@ theorem zipWith_add_len {w : Nat} (a b : List (BitVec w)) (n : Nat) (ha : a.leng
 
 /-! ### well-formedness of the four parameter sets (constants read from the sources) -/
 
+theorem storeLoop_length {w : Nat} (n : Nat) (sh : Nat → Nat) (x : BitVec w) : (Model.storeLoop n sh x).length = n := by
+  simp [Model.storeLoop]
+
 theorem md5_wf : Model.MD5.params.WF :=
-  ⟨by decide, by decide, by decide, by decide, fun x => leBytes_length 8 x⟩
+  ⟨by decide, by decide, by decide, by decide, fun x => storeLoop_length 8 _ x⟩
 theorem sha1_wf : Model.SHA1.params.WF :=
-  ⟨by decide, by decide, by decide, by decide, fun x => beBytes_length 8 x⟩
+  ⟨by decide, by decide, by decide, by decide, fun x => storeLoop_length 8 _ x⟩
 theorem sha256_wf : Model.SHA256.params.WF :=
-  ⟨by decide, by decide, by decide, by decide, fun x => beBytes_length 8 x⟩
+  ⟨by decide, by decide, by decide, by decide, fun x => storeLoop_length 8 _ x⟩
 theorem sha512_wf : Model.SHA512.params.WF :=
-  ⟨by decide, by decide, by decide, by decide, fun x => beBytes_length 8 x⟩
+  ⟨by decide, by decide, by decide, by decide, fun x => storeLoop_length 8 _ x⟩
+
+/-- the store helpers of the classes are the byte-order conversions of the standards -/
+theorem md5_stores : Model.MD5.params.storeLen = leBytes 8 ∧
+    Model.MD5.params.output = fun s => s.flatMap (leBytes 4) :=
+  ⟨funext storeL8_eq, funext fun s => by
+    show s.flatMap (Model.storeLoop 4 _) = _; congr 1; exact funext storeL4_eq⟩
+theorem sha1_stores : Model.SHA1.params.storeLen = beBytes 8 ∧
+    Model.SHA1.params.output = fun s => s.flatMap (beBytes 4) :=
+  ⟨funext storeH8_eq, funext fun s => by
+    show s.flatMap (Model.storeLoop 4 _) = _; congr 1; exact funext storeH4_eq⟩
+theorem sha256_stores : Model.SHA256.params.storeLen = beBytes 8 ∧
+    Model.SHA256.params.output = fun s => s.flatMap (beBytes 4) :=
+  ⟨funext storeH8_eq, funext fun s => by
+    show s.flatMap (Model.storeLoop 4 _) = _; congr 1; exact funext storeH4_eq⟩
+theorem sha512_stores : Model.SHA512.params.storeLen = beBytes 8 ∧
+    Model.SHA512.params.output = fun s => s.flatMap (beBytes 8) :=
+  ⟨funext storeH8_eq, funext fun s => by
+    show s.flatMap (Model.storeLoop 8 _) = _; congr 1; exact funext storeH8_eq⟩
 
 /-! ### compress preserves the number of state words -/
 
@@ -71,7 +92,7 @@ theorem md5_mdDigest (msg : Bytes) : mdDigest Model.MD5.params msg = Spec.MD5.ha
     (fun s b hs hb => md5_compress_eq s b hs hb) (fun s b hs _ => md5_compress_len s b hs)]
   rw [mdPad_std _ rfl rfl rfl]
   have hi : Model.MD5.params.init = Spec.MD5.A0 := md5_tables.2.1
-  rw [hi]
+  rw [hi, md5_stores.1, md5_stores.2]
   rfl
 
 theorem sha1_mdDigest (msg : Bytes) : mdDigest Model.SHA1.params msg = Spec.SHA1.hash msg := by
@@ -79,7 +100,7 @@ theorem sha1_mdDigest (msg : Bytes) : mdDigest Model.SHA1.params msg = Spec.SHA1
     (fun s b hs hb => sha1_compress_eq s b hs hb) (fun s b hs _ => sha1_compress_len s b hs)]
   rw [mdPad_std _ rfl rfl rfl]
   have hi : Model.SHA1.params.init = Spec.SHA1.H0 := sha1_tables.1
-  rw [hi]
+  rw [hi, sha1_stores.1, sha1_stores.2]
   rfl
 
 theorem sha256_mdDigest (msg : Bytes) : mdDigest Model.SHA256.params msg = Spec.SHA256.hash msg := by
@@ -87,7 +108,7 @@ theorem sha256_mdDigest (msg : Bytes) : mdDigest Model.SHA256.params msg = Spec.
     (fun s b hs hb => sha256_compress_eq s b hs hb) (fun s b hs _ => sha256_compress_len s b hs)]
   rw [mdPad_std _ rfl rfl rfl]
   have hi : Model.SHA256.params.init = Spec.SHA256.H0 := sha256_tables.2.1
-  rw [hi]
+  rw [hi, sha256_stores.1, sha256_stores.2]
   rfl
 
 /-! ### SHA-512: 128-bit length field whose upper half the code fills with zero bytes -/
@@ -130,12 +151,11 @@ theorem sha512_mdPad (msg : Bytes) (hlen : 8 * msg.length < 2 ^ 64) :
   have hbs : Model.SHA512.params.blockSize = 128 := rfl
   have hpl : Model.SHA512.params.padLimit = 112 := rfl
   have hlp : Model.SHA512.params.lenPos = 120 := rfl
-  rw [hbs, hpl, hlp]
+  rw [hbs, hpl, hlp, sha512_stores.1]
   show _ = msg ++ [128#8] ++ List.replicate (Spec.padZeros 128 16 (List.length msg)) 0#8 ++
       beBytes 16 (BitVec.ofNat 128 (8 * List.length msg))
   rw [beBytes16_of_lt _ hlen]
   simp only [List.append_assoc]
-  rfl
 
 /-- for messages of fewer than 2^64 bits (the 64-bit `length_` counter; FIPS 180-4 allows 2^128) -/
 theorem sha512_mdDigest (msg : Bytes) (hlen : 8 * msg.length < 2 ^ 64) :
@@ -144,7 +164,7 @@ theorem sha512_mdDigest (msg : Bytes) (hlen : 8 * msg.length < 2 ^ 64) :
     (fun s b hs hb => sha512_compress_eq s b hs hb) (fun s b hs _ => sha512_compress_len s b hs)]
   rw [sha512_mdPad msg hlen]
   have hi : Model.SHA512.params.init = Spec.SHA512.H0 := sha512_tables.2.1
-  rw [hi]
+  rw [hi, sha512_stores.2]
   rfl
 
 end TlxVerif.C14
